@@ -780,6 +780,8 @@ class NpyArray:
         # Reset length
         self.shape = (length, ) + self.shape[1:]
         self._prepare_header_data()
+        # Write the header first so that the file never declares more data than it has
+        self._write_header_data()
 
         self.fs.seek(self.header_length + self.size * self.itemsize)
         self.fs.truncate()
